@@ -12,7 +12,7 @@
 import CedarGoProofs.Lemmas.C18Fuel
 import CedarGo.Generated.Facts
 namespace CedarGo
-open CedarGo.Text
+open CedarGo.Text CedarGo.Text.Lx
 
 /-- `next` refines rune-by-rune decoding of the concatenated bytes: for every reader (any chunking,
     empty chunks, data-with-EOF, failing or not) and every buffer size ≥ utf8.UTFMax, the sequence of
